@@ -16,6 +16,7 @@ type Decision struct {
 	K  byte     `json:"k"` // 'b' branch, 'c' vChoose, 'v' concretize value, 'x' concretize excluding
 	V  uint64   `json:"v"`
 	Ex []uint64 `json:"ex,omitempty"`
+	N  string   `json:"-"` // debug: where the decision was taken
 }
 
 type Violation struct {
@@ -62,6 +63,7 @@ type HarnessStats struct {
 	GlobalWrite []string
 	Funcs       map[string]bool
 	Covers      map[string]int
+	Notes       map[string]bool
 	MaxDepth    int
 }
 
@@ -126,6 +128,7 @@ type Worker struct {
 	chanCnt     int
 	sched       *scheduler
 	onceDone    map[string]bool
+	notes       map[string]bool
 	randConcrete bool
 	lits        map[int]bool // term id → value asserted on this path
 }
@@ -179,6 +182,7 @@ func (w *Worker) resetPath(prefix []Decision) {
 	w.chanCnt = 0
 	w.sched = nil
 	w.onceDone = nil
+	w.notes = map[string]bool{}
 	w.randConcrete = false
 	w.lits = map[int]bool{}
 	w.sol.NewPath()
@@ -186,7 +190,14 @@ func (w *Worker) resetPath(prefix []Decision) {
 
 func (w *Worker) inPrefix() bool { return w.dpos < len(w.prefix) }
 
-func (w *Worker) record(d Decision) { w.decisions = append(w.decisions, d) }
+func (w *Worker) record(d Decision) {
+	if debugPaths && d.N == "" {
+		d.N = shortFn(w.curFn())
+	}
+	w.decisions = append(w.decisions, d)
+}
+
+var debugPaths = os.Getenv("SYMGO_DEBUGPATHS") != ""
 
 func (w *Worker) pushSibling(d Decision) {
 	s := make([]Decision, len(w.decisions)+1)
@@ -610,6 +621,9 @@ func (w *Worker) runPath(h *Harness, prefix []Decision) (end string, err error) 
 	for f := range w.funcsSeen {
 		s.Funcs[f] = true
 	}
+	for n := range w.notes {
+		s.Notes[n] = true
+	}
 	if wit != nil {
 		if len(s.Witnesses) < w.eng.witnessN {
 			s.Witnesses = append(s.Witnesses, wit)
@@ -696,6 +710,13 @@ func (e *Engine) runAll() {
 						w = e.newWorker(id, w)
 					}
 					end, err := w.runPath(h, it.prefix)
+					if debugPaths && w.npaths%5000 == 1 {
+						var sb strings.Builder
+						for _, d := range w.decisions {
+							fmt.Fprintf(&sb, "%c%d@%s ", d.K, d.V, d.N)
+						}
+						fmt.Fprintf(os.Stderr, "PATH %s end=%s: %s\n", h.Name, end, sb.String())
+					}
 					if e.verbose {
 						fmt.Fprintf(os.Stderr, "[w%d] %s path end=%s depth=%d err=%v\n", id, h.Name, end, len(w.decisions), err)
 					}
